@@ -35,3 +35,12 @@ impl<K, V> BTreeMap<K, V> {
 impl<K, V> BTreeMap<K, V> {
     #[verifier::external_body] pub fn len(&self) -> (r: usize) ensures r == self@.dom().len() { unimplemented!() }
 }
+// first_key_value / last_key_value (std documentation): the pair with the minimum / maximum key of the ordered map
+impl<K: Ord + vstd::std_specs::cmp::OrdSpec, V> BTreeMap<K, V> {
+    #[verifier::external_body] pub fn first_key_value(&self) -> (r: Option<(&K, &V)>)
+        ensures r is None == (self@.dom() =~= Set::<K>::empty()),
+                r matches Some(p) ==> self@.contains_key(*p.0) && *p.1 == self@[*p.0] && forall|k: K| #[trigger] self@.contains_key(k) ==> !(k.cmp_spec(p.0) is Less) { unimplemented!() }
+    #[verifier::external_body] pub fn last_key_value(&self) -> (r: Option<(&K, &V)>)
+        ensures r is None == (self@.dom() =~= Set::<K>::empty()),
+                r matches Some(p) ==> self@.contains_key(*p.0) && *p.1 == self@[*p.0] && forall|k: K| #[trigger] self@.contains_key(k) ==> !(k.cmp_spec(p.0) is Greater) { unimplemented!() }
+}
